@@ -66,10 +66,20 @@ pub struct Ctor {
     pub indexes_log: fn() -> Vec<i64>,
 }
 
+pub const RUNAWAY: i64 = -4;
+/// no traversal of an array of this crate's test shapes is longer than this
+pub const CAP: usize = 4096;
+
 fn drain_indexes<I: Iterator, F: Fn(I::Item) -> Vec<usize>>(mut it: I, f: F) -> Vec<i64> {
     let mut log = Vec::new();
+    let mut n = 0;
     while let Some(k) = it.next() {
         log.extend(f(k).into_iter().map(|x| x as i64));
+        n += 1;
+        if n > CAP {
+            log.push(RUNAWAY);
+            return log;
+        }
     }
     log.push(END);
     // two further calls after the end
@@ -94,8 +104,11 @@ macro_rules! common_dyn {
         }
         fn iter_vals(&self) -> Vec<i64> {
             let mut v = Vec::new();
-            for x in self {
+            for x in self.into_iter().take(CAP + 1) {
                 v.push(*x);
+            }
+            if v.len() > CAP {
+                v.push(RUNAWAY);
             }
             v
         }
@@ -115,7 +128,7 @@ impl<const K0: usize> ArrDyn for MArr1<i64, K0> {
     fn iter_mut_apply(&mut self, c: i64) -> usize {
         // no IntoIterator for &mut MArr1: mutable traversal goes through indexes + IndexMut
         let mut n = 0;
-        for k in <Self as Indexes<[usize; 1]>>::indexes() {
+        for k in <Self as Indexes<[usize; 1]>>::indexes().take(CAP) {
             let x = self[k];
             self[k] = cell_update(c, x, n);
             n += 1;
@@ -124,7 +137,7 @@ impl<const K0: usize> ArrDyn for MArr1<i64, K0> {
     }
     fn iter_with_log(&self) -> Vec<i64> {
         let mut log = Vec::new();
-        for (k, v) in self.iter_with() {
+        for (k, v) in self.iter_with().take(CAP) {
             log.push(k[0] as i64);
             log.push(*v);
         }
@@ -150,7 +163,7 @@ impl<const K0: usize, const K1: usize> ArrDyn for MArr2<i64, K0, K1> {
     }
     fn iter_mut_apply(&mut self, c: i64) -> usize {
         let mut n = 0;
-        for k in <Self as Indexes<[usize; 2]>>::indexes() {
+        for k in <Self as Indexes<[usize; 2]>>::indexes().take(CAP) {
             let x = self[k];
             self[k] = cell_update(c, x, n);
             n += 1;
@@ -159,7 +172,7 @@ impl<const K0: usize, const K1: usize> ArrDyn for MArr2<i64, K0, K1> {
     }
     fn iter_with_log(&self) -> Vec<i64> {
         let mut log = Vec::new();
-        for (k, v) in self.iter_with() {
+        for (k, v) in self.iter_with().take(CAP) {
             log.extend(k.iter().map(|&x| x as i64));
             log.push(*v);
         }
@@ -185,7 +198,7 @@ impl<const K0: usize, const K1: usize, const K2: usize> ArrDyn for MArr3<i64, K0
     }
     fn iter_mut_apply(&mut self, c: i64) -> usize {
         let mut n = 0;
-        for k in <Self as Indexes<[usize; 3]>>::indexes() {
+        for k in <Self as Indexes<[usize; 3]>>::indexes().take(CAP) {
             let x = self[k];
             self[k] = cell_update(c, x, n);
             n += 1;
@@ -194,7 +207,7 @@ impl<const K0: usize, const K1: usize, const K2: usize> ArrDyn for MArr3<i64, K0
     }
     fn iter_with_log(&self) -> Vec<i64> {
         let mut log = Vec::new();
-        for (k, v) in self.iter_with() {
+        for (k, v) in self.iter_with().take(CAP) {
             log.extend(k.iter().map(|&x| x as i64));
             log.push(*v);
         }
@@ -310,7 +323,7 @@ impl<D0: HasSibling + 'static> ArrDyn for MArrD1<D0, i64> {
     }
     fn iter_mut_apply(&mut self, c: i64) -> usize {
         let mut n = 0;
-        for x in self.iter_mut() {
+        for x in self.iter_mut().take(CAP) {
             *x = cell_update(c, *x, n);
             n += 1;
         }
@@ -318,7 +331,7 @@ impl<D0: HasSibling + 'static> ArrDyn for MArrD1<D0, i64> {
     }
     fn iter_with_log(&self) -> Vec<i64> {
         let mut log = Vec::new();
-        for (k, v) in self.iter_with() {
+        for (k, v) in self.iter_with().take(CAP) {
             log.push(xi::<D0>(k) as i64);
             log.push(*v);
         }
@@ -354,7 +367,7 @@ impl<D0: Domain + 'static, D1: Domain + 'static> ArrDyn for MArrD2<D0, D1, i64> 
     }
     fn iter_mut_apply(&mut self, c: i64) -> usize {
         let mut n = 0;
-        for x in self.iter_mut() {
+        for x in self.iter_mut().take(CAP) {
             *x = cell_update(c, *x, n);
             n += 1;
         }
@@ -362,7 +375,7 @@ impl<D0: Domain + 'static, D1: Domain + 'static> ArrDyn for MArrD2<D0, D1, i64> 
     }
     fn iter_with_log(&self) -> Vec<i64> {
         let mut log = Vec::new();
-        for (k, v) in self.iter_with() {
+        for (k, v) in self.iter_with().take(CAP) {
             log.push(xi::<D0>(k.0) as i64);
             log.push(xi::<D1>(k.1) as i64);
             log.push(*v);
@@ -390,7 +403,7 @@ impl<D0: Domain + 'static, D1: Domain + 'static, D2: Domain + 'static> ArrDyn fo
     }
     fn iter_mut_apply(&mut self, c: i64) -> usize {
         let mut n = 0;
-        for x in self.iter_mut() {
+        for x in self.iter_mut().take(CAP) {
             *x = cell_update(c, *x, n);
             n += 1;
         }
@@ -398,7 +411,7 @@ impl<D0: Domain + 'static, D1: Domain + 'static, D2: Domain + 'static> ArrDyn fo
     }
     fn iter_with_log(&self) -> Vec<i64> {
         let mut log = Vec::new();
-        for (k, v) in self.iter_with() {
+        for (k, v) in self.iter_with().take(CAP) {
             log.push(xi::<D0>(k.0) as i64);
             log.push(xi::<D1>(k.1) as i64);
             log.push(xi::<D2>(k.2) as i64);
